@@ -146,6 +146,8 @@ class FakeProc:
             return
         if sig == 15:
             self.got_term = True
+            if self.obeys_term and self.state != 'busy':
+                self.die(-15)       # an idle worker honours TERM at once (G_worker, harness/c03.py)
         elif sig == 9:
             self.got_kill = True
             self.die(-9)
